@@ -132,11 +132,16 @@ Print Assumptions format_impl_eq_spec_strong.
 
 (* numeric strings are converted for numeric conversions, other strings raise *)
 Theorem format_numeric_string : forall go sp s n rest its,
-  numeric_verb (d_verb sp) = true ->
+  numeric_verb (d_verb sp) = true -> valid_verb (d_verb sp) = true ->
   run_items go (IDir sp :: its) (AConv s (Some n) :: rest) = run_items go (IDir sp :: its) (ANum n :: rest) /\
   run_items go (IDir sp :: its) (AConv s None :: rest) = FErr.
 Proof. exact format_numeric_string_lemma. Qed.
 Print Assumptions format_numeric_string.
+
+Theorem format_invalid_option : forall go sp a rest its,
+  valid_verb (d_verb sp) = false -> run_items go (IDir sp :: its) (a :: rest) = FErr.
+Proof. exact format_invalid_option_lemma. Qed.
+Print Assumptions format_invalid_option.
 
 (* ---------- math library (MathWModel.v) ---------- *)
 From GL Require Import Str.MathWModel Str.MathWFacts Str.MathWOrder.
